@@ -28,6 +28,7 @@ def run(prog: Program, rep: Report, tier: str):
     rule_ranks(prog, rep)
     rule_mask_helpers(prog, rep)
     rule_bnaf_tree(prog, rep)
+    rule_where_wrapper(prog, rep)
     rule_coupling(prog, rep)
     rule_block(prog, rep)
     rule_constructor(prog, rep)
@@ -37,8 +38,8 @@ def run(prog: Program, rep: Report, tier: str):
         audit_generic(prog, rep, "C09")
 
 
-def rule_made_masks(prog, rep):
-    rep.rule("C09.strict", "masked_autoregressive_mlp, by constant propagation for depth 0..3: every linear layer's "
+def rule_made_masks(prog, rep, R="C09.strict"):
+    rep.rule(R, "masked_autoregressive_mlp, by constant propagation for depth 0..3: every linear layer's "
                            "weight is replaced by the unwrap-time wrapper Where(mask, weight, 0) (never an eager "
                            "product, which training would un-mask); layer i is masked by rank_based_mask(ranks[i], "
                            "ranks[i+1]) with ranks = [in, hidden x depth, out]; the comparison is non-strict (>=) for "
@@ -53,18 +54,18 @@ def rule_made_masks(prog, rep):
                              {"depth": C(depth), "activation": ("sym", "ACT"), "key": ("sym", "KEY")})
         k0 = f"masked_autoregressive_mlp[depth={depth}]"
         if has_unknown(t):
-            rep.undecided("C09.strict", site, k0, f"unmodelled: {find_unknown(t)}")
+            rep.undecided(R, site, k0, f"unmodelled: {find_unknown(t)}")
             continue
         if t[0] == "raises":
-            rep.violated("C09.strict", site, k0, f"construction raises for depth {depth}: {show(t, 160)}")
+            rep.violated(R, site, k0, f"construction raises for depth {depth}: {show(t, 160)}")
             continue
         kw = dict(t[3]) if t[0] == "call" and t[1] == TREE_AT else {}
         layers = kw.get("replace")
         if layers is None or layers[0] not in ("tuple", "list"):
-            rep.undecided("C09.strict", site, k0, f"result is not tree_at(..., replace=<layers>): {show(t, 200)}")
+            rep.undecided(R, site, k0, f"result is not tree_at(..., replace=<layers>): {show(t, 200)}")
             continue
         n = len(layers[1])
-        rep.check(n == depth + 1, "C09.strict", site, k0 + ":all-layers-masked", f"{n} masked layers",
+        rep.check(n == depth + 1, R, site, k0 + ":all-layers-masked", f"{n} masked layers",
                   f"{n} layers are masked but the MLP has {depth + 1}")
         def norm_ranks(r):
             # ranks are cast with jnp.asarray(., int32) on entry
@@ -75,7 +76,7 @@ def rule_made_masks(prog, rep):
             rkw = dict(lay[3]) if lay[0] == "call" and lay[1] == TREE_AT else {}
             rep_val = rkw.get("replace")
             if rep_val is None or rep_val[0] != "call" or rep_val[1] != WHERE_W:
-                rep.violated("C09.strict", site, k + ":wrapper",
+                rep.violated(R, site, k + ":wrapper",
                              f"layer {i}'s weight is replaced by {show(rep_val, 160) if rep_val else None}, not by the "
                              f"unwrap-time wrapper Where(mask, weight, 0): the mask is applied once and an optimiser "
                              f"update un-masks the weights")
@@ -84,15 +85,15 @@ def rule_made_masks(prog, rep):
             mask = wkw.get("cond")
             ok_w = wkw.get("if_false") == C(0) and wkw.get("if_true") is not None and wkw["if_true"][0] == "attr" \
                 and wkw["if_true"][2] == "weight" and wkw["if_true"][1][0] == "mlp_layer" and wkw["if_true"][1][2] == C(i)
-            rep.check(ok_w, "C09.strict", site, k + ":wrapper", "Where(mask, layer.weight, 0)",
+            rep.check(ok_w, R, site, k + ":wrapper", "Where(mask, layer.weight, 0)",
                       f"wrapper is {show(rep_val, 200)}")
             if mask is None or mask[0] != "call" or mask[1] != RBM:
-                rep.undecided("C09.strict", site, k + ":mask", f"mask is {show(mask, 160) if mask else None}")
+                rep.undecided(R, site, k + ":mask", f"mask is {show(mask, 160) if mask else None}")
                 continue
             mkw = dict(mask[3])
             last = i == n - 1
             eq = mkw.get("eq", C(False))
-            rep.check(eq == C(not last), "C09.strict", site, k + (":strict(>)" if last else ":non-strict(>=)"),
+            rep.check(eq == C(not last), R, site, k + (":strict(>)" if last else ":non-strict(>=)"),
                       f"eq={eq[1] if is_const(eq) else show(eq)}",
                       f"layer {i} of {n} (depth {depth}) compares ranks with eq={show(eq)}: " + (
                           "the last layer must be strict, otherwise the parameters of output i depend on input i"
@@ -100,7 +101,7 @@ def rule_made_masks(prog, rep):
             if i < len(ranks) - 1:
                 okr = same(norm_ranks(mkw.get("in_ranks", C(None))), ranks[i]) and \
                     same(norm_ranks(mkw.get("out_ranks", C(None))), ranks[i + 1])
-                rep.check(okr, "C09.strict", site, k + ":ranks",
+                rep.check(okr, R, site, k + ":ranks",
                           f"mask({show(ranks[i])} -> {show(ranks[i + 1])})",
                           f"layer {i} is masked with ranks {show(mkw.get('in_ranks'), 60)} -> {show(mkw.get('out_ranks'), 60)}, "
                           f"expected {show(ranks[i])} -> {show(ranks[i + 1])}")
@@ -197,7 +198,7 @@ def rule_bnaf_tree(prog, rep):
                                 "WeightNormalization(Where(diag, BijectionReparam(Where(tril, w, 0), SoftPlus, "
                                 "invert_on_init=False), Where(tril, w, 0))) - zero off the block-lower-triangular mask "
                                 "and strictly positive on the diagonal blocks for every raw weight; the log-Jacobian "
-                                "callable reads exactly the block_diag_mask entries", minimum=2)
+                                "callable reads exactly the block_diag_mask entries; Where.unwrap is where(cond, if_true, if_false) and its fields are stored as passed", minimum=4)
     m, fn = prog.func(BN + "block_autoregressive_linear")
     site = f"{m.relpath}:{fn.lineno}"
     noin = {"flowjax.masks.block_diag_mask", "flowjax.masks.block_tril_mask"}
@@ -224,6 +225,28 @@ def rule_bnaf_tree(prog, rep):
     rep.check(ok, "C09.mask@unwrap", site, "block_autoregressive_linear:log-jacobian-reads-diagonal-blocks",
               "log(weight[where(block_diag_mask)].reshape(n_blocks, *block_shape))",
               f"log-Jacobian callable is {show(f, 240) if f else None}")
+
+
+def rule_where_wrapper(prog, rep):
+    """Every mask in the repo is applied through wrappers.Where: its unwrap must select if_true where cond holds."""
+    c = prog.cls("flowjax.wrappers.Where")
+    got = Interp(prog).eval_method(c, "unwrap", [])
+    want = eval_ref_method(prog, c, "def unwrap(self):\n    return jnp.where(self.cond, self.if_true, self.if_false)\n", [])
+    compare(rep, "C09.mask@unwrap", method_site(prog, c, "unwrap"), "Where.unwrap==where(cond, if_true, if_false)", got, want,
+            "unwrap")
+    # the mask's `0` must stay the Python scalar the call sites pass (a static leaf): a constructor that turns it into
+    # a float array makes the masked-out entries trainable parameters
+    k = "Where.__init__:fields-stored-verbatim"
+    if "__init__" not in c.methods:
+        rep.holds("C09.mask@unwrap", f"{c.module.relpath}:{c.node.lineno}", k, "dataclass constructor (fields stored as passed)")
+    else:
+        CO, T, F = ("sym", "COND_"), ("sym", "IF_TRUE"), ("sym", "IF_FALSE")
+        f = Interp(prog).eval_init(c, [CO, T, F])
+        bad = [n for n, v in (("cond", CO), ("if_true", T), ("if_false", F)) if not same(f.get(n, ("unknown", "unset")), v)]
+        rep.check(not bad, "C09.mask@unwrap", method_site(prog, c, "__init__"), k, "fields stored as passed",
+                  f"Where.__init__ rewrites {bad}: if_false is stored as {show(f.get('if_false', ('unknown', 'unset')), 160)} - "
+                  f"an array leaf in place of the scalar 0 is picked up by eqx.partition(is_inexact_array) and trained, "
+                  f"so the mask no longer survives an update")
 
 
 def rule_coupling(prog, rep):
@@ -356,13 +379,13 @@ def rule_constructor(prog, rep):
                 f"{c.name}._flat_params_to_transformer", got, want, "per-coordinate transformer")
 
 
-def rule_positive_diagonal(prog, rep):
+def rule_positive_diagonal(prog, rep, R="C09.positive"):
     """The strictly positive diagonal of the block autoregressive Jacobian needs, besides the softplus on the
     diagonal blocks, that weight normalisation rescales rows by a POSITIVE factor and that the default
     activation is increasing."""
     from .c11 import reparam_image_lower_bound, REPARAM
     from ..terms import is_const
-    rep.rule("C09.positive", "BNAF positive diagonal for all weights: WeightNormalization multiplies each row by a scale "
+    rep.rule(R, "BNAF positive diagonal for all weights: WeightNormalization multiplies each row by a scale "
                              "that is softplus-reparameterised (> 0 for every raw value) and divides by the row norm "
                              "over the last axis; the diagonal blocks are softplus-positive (C09.mask@unwrap)", minimum=2)
     c = prog.cls("flowjax.wrappers.WeightNormalization")
@@ -373,10 +396,10 @@ def rule_positive_diagonal(prog, rep):
     if ok:
         lb = reparam_image_lower_bound(prog, dict(sc[3]).get("bijection"))
         ok = lb is not None and lb[1] and is_const(lb[0]) and lb[0][1] >= 0
-    rep.check(ok, "C09.positive", site, "WeightNormalization.scale>0",
+    rep.check(ok, R, site, "WeightNormalization.scale>0",
               "scale = softplus(raw) > 0", f"WeightNormalization.scale is stored as {show(sc, 160) if sc else None}: a row "
                                            f"scale that can become negative flips the sign of whole rows, so the "
                                            f"block-diagonal of the Jacobian is no longer positive once the weights move")
     got = Interp(prog).eval_method(c, "unwrap", [])
     want = eval_ref_method(prog, c, "def unwrap(self):\n    return self.scale * self.weight / jnp.linalg.norm(self.weight, axis=-1, keepdims=True)\n", [])
-    compare(rep, "C09.positive", method_site(prog, c, "unwrap"), "WeightNormalization.unwrap", got, want, "unwrap")
+    compare(rep, R, method_site(prog, c, "unwrap"), "WeightNormalization.unwrap", got, want, "unwrap")
